@@ -269,7 +269,7 @@ pub fn c18_expected(s: &str) -> String {
     out
 }
 
-fn margin_text(rng: &mut crate::rng::Rng) -> String {
+pub fn margin_text(rng: &mut crate::rng::Rng) -> String {
     let n = rng.below(5);
     let mut s = String::new();
     for i in 0..n {
@@ -277,10 +277,13 @@ fn margin_text(rng: &mut crate::rng::Rng) -> String {
             s.push_str(match rng.below(10) { 0 => "\r\n", 1 => "\r\r\n", _ => "\n" });
         }
         for _ in 0..rng.below(4) {
-            s.push_str(match rng.below(6) { 0 => "\t", 1 => "\u{a0}", 2 => "  ", _ => " " });
+            // blanks that share leading UTF-8 bytes with each other (U+2002/2003/2005: E2 80 xx;
+            // NBSP / NEL: C2 xx) separate a margin computed on chars from one computed on bytes
+            s.push_str(match rng.below(14) { 0 => "\t", 1 | 2 => "\u{a0}", 3 => "  ", 4 | 5 => "\u{2003}", 6 => "\u{2002}", 7 => "\u{85}", 8 => "\u{3000}", 9 => "\u{2005}", _ => " " });
         }
         if !rng.chance(1, 4) {
-            s.push_str(match rng.below(4) { 0 => "foo", 1 => "é b", 2 => "x  ", _ => "bar\t" });
+            // … and content whose first char shares them too (« = C2 AB, — = E2 80 94)
+            s.push_str(match rng.below(7) { 0 => "foo", 1 => "é b", 2 => "x  ", 3 => "«q»", 4 => "—z", 5 => "©", _ => "bar\t" });
         }
     }
     if rng.chance(1, 3) {
@@ -317,7 +320,7 @@ pub fn c18(ctx: &mut Ctx) {
         run(ctx, s);
     }
     ctx.count_n("exhaustive_small_texts", all.len() as u64);
-    let wsp: &[&str] = &[" ", "\t", "  ", "\u{a0}", " \t", "    "];
+    let wsp: &[&str] = &[" ", "\t", "  ", "\u{a0}", " \t", "    ", "\u{2003}", "\u{2003}\u{2002}", "\u{a0}\u{85}", "\u{3000} "];
     for _ in 0..ctx.n(30000, 600_000) {
         let s = if ctx.rng.chance(3, 4) { margin_text(&mut ctx.rng) } else { gen::any_text(&mut ctx.rng) };
         run(ctx, &s);
